@@ -3736,6 +3736,70 @@ func fileHandler(repo string) {
 
 // ==== END default file handler ================================================================================
 
+// ==== timers, sleeps and deadlines of the server packages (C11 C12 C13) ========================================
+//   gen_time_calls : (package, callee, count) for every call, in the non-test files of service and attachment, of
+//                    time.After / NewTimer / AfterFunc / Tick / NewTicker / Sleep, context.WithTimeout / WithDeadline,
+//                    and of a method named SetDeadline / SetReadDeadline / SetWriteDeadline; sorted
+// The scheduler models (Model/Writer.v, Model/Registry.v) contain exactly the waits the code has: a new timer or
+// deadline anywhere in these packages is a behaviour the models do not have.
+func timeCalls(repo string) {
+	timed := map[string]bool{"After": true, "NewTimer": true, "AfterFunc": true, "Tick": true, "NewTicker": true, "Sleep": true}
+	ctxd := map[string]bool{"WithTimeout": true, "WithDeadline": true, "WithTimeoutCause": true, "WithDeadlineCause": true}
+	dead := map[string]bool{"SetDeadline": true, "SetReadDeadline": true, "SetWriteDeadline": true}
+	type key struct{ pkg, callee string }
+	cnt := map[key]int{}
+	for _, dir := range []string{"service", "attachment"} {
+		files := parseDir(filepath.Join(repo, dir))
+		for n, f := range files {
+			if strings.HasPrefix(n, "verif_") {
+				continue
+			}
+			ast.Inspect(f, func(x ast.Node) bool {
+				c, ok := x.(*ast.CallExpr)
+				if !ok {
+					return true
+				}
+				se, ok := c.Fun.(*ast.SelectorExpr)
+				if !ok {
+					return true
+				}
+				if id, ok := se.X.(*ast.Ident); ok {
+					if id.Name == "time" && timed[se.Sel.Name] {
+						cnt[key{dir, "time." + se.Sel.Name}]++
+						return true
+					}
+					if id.Name == "context" && ctxd[se.Sel.Name] {
+						cnt[key{dir, "context." + se.Sel.Name}]++
+						return true
+					}
+				}
+				if dead[se.Sel.Name] {
+					cnt[key{dir, "." + se.Sel.Name}]++
+				}
+				return true
+			})
+		}
+	}
+	var ks []key
+	for k := range cnt {
+		ks = append(ks, k)
+	}
+	sort.Slice(ks, func(i, j int) bool {
+		if ks[i].pkg != ks[j].pkg {
+			return ks[i].pkg < ks[j].pkg
+		}
+		return ks[i].callee < ks[j].callee
+	})
+	var rows []string
+	for _, k := range ks {
+		rows = append(rows, fmt.Sprintf("(%s%%string, %s%%string, %d)", strconv.Quote(k.pkg), strconv.Quote(k.callee), cnt[k]))
+	}
+	fmt.Fprintf(&out, "\n(* timers, sleeps and deadlines in packages service and attachment *)\n")
+	fmt.Fprintf(&out, "Definition gen_time_calls : list (string * string * N) := [%s].\n", strings.Join(rows, "; "))
+}
+
+// ==== END timers ================================================================================================
+
 func main() {
 	repo := flag.String("repo", "/repo", "repository root")
 	outp := flag.String("out", "", "output .v file")
@@ -3761,6 +3825,7 @@ func main() {
 	jt1078Layout(*repo) // header layout of the JT/T 1078 packet (C17)
 	attachLayout(*repo) // chunk header of the attachment stream (C15)
 	fileHandler(*repo)  // file-system calls of package attachment and the save step (C19)
+	timeCalls(*repo)    // timers, sleeps and deadlines of service / attachment (C11 C12 C13)
 	stringOps(*repo)    // String() methods: partial operations and callees (C03)
 	q := make([]string, len(unrecognised))
 	for i, u := range unrecognised {
